@@ -387,13 +387,14 @@ def add_cyclic_mutual(prog, rng):
 
 
 def worker(arg):
-    seed, souffle = arg
+    seed, souffle = arg[0], arg[1]
+    compiled_mode = len(arg) > 2 and arg[2] == "compiled"
     rng = random.Random(seed)
     prog = progen.generate(seed, cfg_fn(rng))
-    if rng.random() < 0.4:
+    if rng.random() < (0.7 if compiled_mode else 0.4):
         add_cyclic_mutual(prog, rng)
     text = dl.fmt_program(prog)
-    rec = dict(seed=seed, hash=runner.prog_hash(text), features=sorted(prog.features), counts={})
+    rec = dict(seed=seed, hash=runner.prog_hash(text), features=sorted(prog.features) + (["compiled"] if compiled_mode else []), counts={})
     try:
         db, ev = pc.reference(prog)
     except refeval.Undefined:
@@ -438,11 +439,23 @@ def worker(arg):
     viols = []
     tags = dc.shape_tags(prog)
     deep_total = 0
-    for (cname, extra, strong) in (("default", [], False), ("no-ast-opts", ["--disable-transformers=" + ",".join(DISABLE)], True)):
+    configs = (("compiled", [], False),) if compiled_mode else (("default", [], False), ("no-ast-opts", ["--disable-transformers=" + ",".join(DISABLE)], True))
+    for (cname, extra, strong) in configs:
         od = "prov-" + cname
-        run = runner.run_souffle(souffle, d, args=["-t", "explain"] + extra, outdir=od, timeout=240, stdin=script)
+        K = lambda k: "%s%s" % (k, "" if cname == "default" else "@" + cname)
+        if compiled_mode:
+            # generated code: souffle -t explain -o, the executable then offers the same explain prompt
+            from . import compiled
+            b, bk = compiled.build_exe(souffle, d, exe="exe_prov", extra=["-t", "explain"])
+            rec["counts"]["compiles"] = 1
+            if bk is not None or b.rc != 0:
+                viols.append((K("provenance:compile-failed" + (":" + bk if bk else "")), "souffle -t explain -o fails (%s, exit %s)\n%s\n%s" % (bk, b.rc, b.err[-2500:], text)))
+                continue
+            os.makedirs(os.path.join(d, od), exist_ok=True)
+            run = runner.run_cmd([os.path.join(d, "exe_prov"), "-F.", "-D" + od], d, None, 240, script)
+        else:
+            run = runner.run_souffle(souffle, d, args=["-t", "explain"] + extra, outdir=od, timeout=240, stdin=script)
         ck = runner.crash_key(run)
-        K = lambda k: "%s%s" % (k, "" if cname == "default" else "@no-ast-opts")
         if ck == "timeout":
             # printing 40 full proof trees can legitimately take long (a tree of height h over a rule with two recursive atoms has
             # 2^h nodes); the statement promises valid proofs, not fast ones: the case is set aside, not reported
@@ -518,13 +531,15 @@ def check(tier, seed):
     t = pc.trees("plain", "san")
     n = 400 if tier == "quick" else 3000
     nsan = 24 if tier == "quick" else 150
+    ncomp = 6 if tier == "quick" else 64
     res = Result("exploration")
     res.rule = RULE
     base = seed * 1000000 + (0 if tier == "quick" else 50000) + 190000
-    recs = runner.pmap(worker, [(base + i, t["plain"]) for i in range(n)] + [(base + n + i, t["san"]) for i in range(nsan)])
+    recs = runner.pmap(worker, [(base + i, t["plain"]) for i in range(n)] + [(base + n + i, t["san"]) for i in range(nsan)] +
+                      [(base + n + nsan + i, t["plain"], "compiled") for i in range(ncomp)])
     pc.collect("C19", recs, res)
     res.min_nontrivial = n // 10
-    res.assumptions = ["interpreter only", "symbols containing quotes cannot be asked for in the explain command language and are not queried",
+    res.assumptions = ["mostly the interpreter; generated code (souffle -t explain -o) on a few programs per run (compile-bound)", "symbols containing quotes cannot be asked for in the explain command language and are not queried",
                        "eqrel relations: membership of proof nodes only (their rules are synthetic)",
                        "the reference evaluator's value semantics are right (cases where the baseline disagrees with it are skipped: C01)"]
     return res
